@@ -129,6 +129,11 @@ fn gene_value(g: &PushGene) -> Option<u32> {
 
 fn check_flip(rate_bits: Option<u32>, container: FlipContainer, len: usize, spec: &RngSpec, obs: &mut Obs) -> Vec<Violation> {
     let mut rng = spec.build();
+    if len > 200_000 {
+        // one decision per gene (the default cap on draws per operation is for small inputs)
+        rng.set_cap(4 * len as u64 + 1000);
+        obs.hit("probe.flip-mutation-of-more-than-2^24-genes");
+    }
     let site = format!("{}/{container:?}", if rate_bits.is_some() { "WithRate" } else { "WithOneOverLength" });
     let rate = rate_bits.map(f32::from_bits);
     // returns (child tags or bools, original bools)
@@ -709,6 +714,14 @@ impl Check for C11 {
         // every fourth scenario sweeps the lengths 0..=640 densely (by run index)
         let len = if run % 4 == 1 { ((run / 4) % 641) as usize } else { len };
         let rng = RngSpec::swarm(g);
+        if run % 100_000 == 70_001 {
+            // genomes whose length is not a number an f32 can hold (2^24 + 1, + 3, 2^25 + 2): 1 / length is still a
+            // rate, and the genome is still mutated gene by gene (sizes fixed by the run index)
+            let k = run / 100_000;
+            let len = [(1usize << 24) + 1, (1 << 24) + 3, (1 << 25) + 2, (1 << 24) + 1][(k % 4) as usize];
+            let container = [FlipContainer::VecBool, FlipContainer::Bits][((k / 4) % 2) as usize];
+            return Sc::Flip { rate_bits: None, container, len, rng: RngSpec::seeded(rng.seed) };
+        }
         if g.coin() {
             let rate_bits = if g.chance(1, 3) {
                 None
